@@ -530,13 +530,6 @@ def check_C04(chk: Check, replay) -> None:
             chk.violation(f"regenerated_class_differs:{k[0]}:{k[1]}"[:120],
                           f"{k}: {first_difference(live_by[k], gen_by[k])} (shipped vs regenerated)",
                           {"kind": "fixpoint", "class": list(k)})
-    order_live = [(c["module"], c["name"]) for c in model["classes"]]
-    order_gen = [(c["module"], c["name"]) for c in gen_model["classes"]]
-    if sorted(order_live) == sorted(order_gen):
-        for mod in {m for m, _ in order_live}:
-            if [n for m, n in order_live if m == mod] != [n for m, n in order_gen if m == mod]:
-                chk.violation(f"class_order_differs:{mod}", f"{mod}: class order shipped vs regenerated differs",
-                              {"kind": "fixpoint"})
     for part in ("exports", "index_keys", "index_entries", "errors", "types"):
         if model[part] != gen_model[part]:
             chk.violation(f"regenerated_{part}_differ", f"{part}: {first_difference(model[part], gen_model[part])}",
